@@ -52,6 +52,15 @@ Theorem C14_i2c_version_1_to_0_escapes_iff : forall f img tail a,
 Proof. exact i2c_version_1_to_0. Qed.
 Print Assumptions C14_i2c_version_1_to_0_escapes_iff.
 
+(* the other direction: a version-0 image whose version byte reads 1 is checked against byte 20, i.e.
+   against whatever five bytes follow the image in the EEPROM *)
+Theorem C14_i2c_version_0_to_1_escapes_iff : forall f img t0 t1 t2 t3 t4 tail,
+  i2c_wf f -> i2c_write f = Some img -> i_version f = 0 ->
+  (i2c_valid (i2c_parse (upd 4 1 img ++ t0 :: t1 :: t2 :: t3 :: t4 :: tail)) = true <->
+   (sum256 (firstn 15 img) + 1 + nthz 15 img + t0 + t1 + t2 + t3) mod 256 = t4).
+Proof. exact i2c_version_0_to_1. Qed.
+Print Assumptions C14_i2c_version_0_to_1_escapes_iff.
+
 (* finding F14b: the clause "any single corrupted EEPROM byte is detected" is false for the version
    byte.  Witness: channel 184, speed 2, zero trims, address 0xE7E7E7E7E7 *)
 Theorem C14_i2c_single_byte_corruption_refuted :
